@@ -156,6 +156,23 @@ def has_wrapped_composite_in_composite(e):
     return any(has_wrapped_composite_in_composite(s) for s in G.sub_exprs(e))
 
 
+def has_typed_clause_scope(e):
+    """D49: inside a clause ("... that is ...") a typed matcher over a composite, is_type(T, any_of(a, b)), and the composite whose member is
+    the typed matcher, any_of(is_type(T, a), b), are both written "a T that is a or is b": the scope of the type is not in the sentence
+    (at top level the second reads "... or to be b": the collision needs a clause host such as has_entry / has_item)"""
+    e = _strip_is(e)
+    if e[0] == "is_type" and len(e) > 2:
+        inner = _unwrapped(_strip_is(e[2]))
+        if inner[0] in ("all_of", "any_of") and len(inner[1]) >= 2:
+            return True
+    if e[0] in ("all_of", "any_of") and len(e[1]) >= 2:
+        for ch in e[1]:
+            ch = _strip_is(ch)
+            if ch[0] == "is_type" and len(ch) > 2:
+                return True
+    return any(has_typed_clause_scope(x) for x in G.sub_exprs(e))
+
+
 def has_tuple_value(e):
     return any(_has_tuple(v) for v in G.literals_of(e))
 
@@ -203,6 +220,7 @@ SIG_NAN_NESTED = "C17/nan-inside-container-identity-shortcut"
 SIG_TUPLE = "C17/tuple-worded-like-list"
 SIG_FLAGS = "C17/pattern-flags-lost-in-wording"
 SIG_WRAPPED = "C17/wrapped-composite-on-one-line-ambiguous"
+SIG_TYPED_SCOPE = "C17/typed-matcher-scope-lost-inside-clause"
 SIG_SIBLING = "C17/sibling-dependent-wording"
 SIG_NEG_INVISIBLE = "C17/negation-invisible-in-wording"
 SIG_NEG_TOGGLE = "C17/not-does-not-toggle-wording"
@@ -608,6 +626,9 @@ class Inject(C.Stream):
         # D45 (open): a composite behind hide_result_details() is written on its parent's line: "a or b and c" is ambiguous
         {"mode": "pool", "exprs": [["any_of", [_a, ["hide", ["all_of", [_b, ["is_none"]]]]]], ["all_of", [["hide", ["any_of", [_a, _b]]], ["is_none"]]],
                                   ["any_of", [_a, ["all_of", [_b, ["is_none"]]]]]]},
+        # D49 (open): inside a clause the scope of a typed matcher is not in the sentence: "a float that is a or is b"
+        {"mode": "pool", "exprs": [["has_entry", ["k"], ["any_of", [["is_type", "float", ["equal_to", ["nan", "math"]]], ["not_", ["equal_to", ["nan", "math"]]]]]],
+                                  ["has_entry", ["k"], ["is_type", "float", ["any_of", [["equal_to", ["nan", "math"]], ["not_equal_to", ["nan", "math"]]]]]]]},
         # a key that holds the wording's own separators is not a multi-level path (minimised failing inputs of seeded/C17-11)
         {"mode": "pool", "exprs": [["has_key", ["a, b"]], ["has_key", ["a -> b"]]]},
         {"mode": "pool", "exprs": [["has_key", p] for p in _KP] + [["not_", ["has_key", p]] for p in _KP[:6]] +
@@ -694,11 +715,14 @@ class Inject(C.Stream):
             noflags = [m for m in strkeys if not has_pattern_flags(m["expr"])]
             lists = [m for m in unwrapped if not has_tuple_value(m["expr"])]
             flat = [m for m in lists if not has_container_nan(m["expr"])]
-            hosts = [m for m in flat if is_clause_over_composite(m["expr"])]
+            untyped = [m for m in flat if not (clause_of(m["expr"]) is not None and has_typed_clause_scope(m["expr"]))]
+            hosts = [m for m in untyped if is_clause_over_composite(m["expr"])]
             if len({m["accepts"] for m in hosts}) > 1:
                 sig, members = SIG_CLAUSE_COLLISION, hosts
+            elif len({m["accepts"] for m in untyped}) > 1:
+                sig, members = SIG_COLLISION, untyped
             elif len({m["accepts"] for m in flat}) > 1:
-                sig, members = SIG_COLLISION, flat
+                sig, members = SIG_TYPED_SCOPE, flat
             elif len({m["accepts"] for m in lists}) > 1:
                 sig, members = SIG_NAN_NESTED, lists
             elif len({m["accepts"] for m in unwrapped}) > 1:
@@ -720,7 +744,7 @@ class Inject(C.Stream):
             seen.add(sig)
             a = members[0]
             b = next(m for m in members if m["accepts"] != a["accepts"]) if sig in (SIG_COLLISION, SIG_QUOTE, SIG_CLAUSE_COLLISION, SIG_KEYTYPE,
-                                                                                    SIG_NAN_NESTED, SIG_TUPLE, SIG_WRAPPED, SIG_FLAGS) else \
+                                                                                    SIG_NAN_NESTED, SIG_TUPLE, SIG_WRAPPED, SIG_FLAGS, SIG_TYPED_SCOPE) else \
                 next(m for m in col["members"] if m["accepts"] != a["accepts"])
             fails.append(C.Failure(sig, f"{a['expr']} and {b['expr']} are both described as {col['description']!r} but accept "
                                         f"different values of the separating domain ({a['accepts']} / {b['accepts']})",
